@@ -3,10 +3,11 @@
   Core Lean only.
 -/
 import GoDebian.Drv.Version
+import GoDebian.Drv.Dependency
 
 open GoDebian GoDebian.Drv
 
-def handlers : List Handler := [versionHandler]
+def handlers : List Handler := [versionHandler, dependencyHandler]
 
 def dispatch (line : String) : String :=
   match (line.splitOn " ").filter (· ≠ "") with
